@@ -70,6 +70,7 @@ pub fn gen_scenario(rng: &mut Rng, with_eval: bool) -> Scenario {
         eval,
         acc_tol: rng.pick(&[1e-6f32, 1e-3, 1e-1, 0.5]),
         pred,
+        init_params: None,
     }
 }
 
@@ -116,8 +117,8 @@ impl Property for C05 {
 
     fn runs(&self, tier: Tier) -> u64 {
         match tier {
-            Tier::Quick => 1500,
-            Tier::Thorough => 40000,
+            Tier::Quick => 8000,
+            Tier::Thorough => 400000,
         }
     }
 
